@@ -11,7 +11,7 @@ SIM = "sim (simulated API server: real k8s managedfields/json-patch libraries, d
 CHECKS = {
  "C01": dict(cat="fault_enumeration",
    text="Real XR reconciler (production wiring, both composers) over the simulated API server: for fixed scenario shapes every API-call index of every reconcile x 6 fault outcomes (incl. crash after the write took effect), then fault-free retries to quiescence; invariants checked by a post-write hook on every intermediate store state. Held on the executions produced, not a proof.",
-   note="Trusted: " + SIM + "; scripted functions served over real gRPC; single XR; composed kinds without finalizers.",
+   note="Trusted: " + SIM + "; scripted functions served over real gRPC; single XR; in provider scenarios composed resources carry a finalizer released one step after deletion.",
    technique="runtime monitoring: post-write invariant hook + fault enumeration over API-call indices", ref="3/C01"),
  "C02": dict(cat="exploration",
    text="For every write site named by the property (definition/offered CRDs, package-manager revision, active-revision establisher, RBAC provider roles / binding / XRD roles, XR composer with a function-chosen name, XR connection secret, composed resources re-parented after composition - both composers) a probe run records what the real controller creates; then an object of that kind and name is planted under a foreign controller reference (or uncontrolled) in a fresh world and the controller runs again. Oracle: foreign object byte-identical (same resourceVersion), no effective write in the log, conflict surfaced (error, Warning event or Synced=False).",
